@@ -138,6 +138,7 @@ def cmd_check(prop: str, tier: str, seed: int, workers: int) -> int:
         while pending and len(running) < workers:
             bt = pending.pop(0)
             argv = ["--prop", prop, "--tier", tier, "--batch-seed", str(bt["batch_seed"]),
+                    "--batch-index", str(bt["b"]), "--batches", str(tc["batches"]),
                     "--runs", str(tc["runs"]), "--budget-s", str(tc["budget_s"]),
                     "--min-budget-s", str(min_budget), "--known", json.dumps(sorted(known)),
                     "--out", bt["out"]]
@@ -218,7 +219,7 @@ def cmd_check(prop: str, tier: str, seed: int, workers: int) -> int:
               "verif_seed": seed, "tier": tier, "batch_seed": v["batch_seed"],
               "pythonhashseed": v["pythonhashseed"], "run_seed": v["run_seed"], "engine": meta["engine"],
               "profile": v.get("profile"), "choices": v["choices"], "orig_choices_len": v["orig_len"],
-              "minimise_execs": v["min_execs"], "log_digest": v["log_digest"], "trace": v["trace"]}
+              "minimise_execs": v["min_execs"], "log_digest": v["log_digest"], "cfg": v.get("cfg"), "trace": v["trace"]}
         with open(path, "w") as f:
             json.dump(rp, f, indent=1, default=repr)
         res = run_replay_file(path, outdir)
@@ -261,7 +262,7 @@ def cmd_check(prop: str, tier: str, seed: int, workers: int) -> int:
             "known_findings_met": {k: v["count"] for k, v in sorted(known_met.items())},
             "components_real": REAL_COMMON + meta.get("real", []),
             "components_stub": STUB_COMMON + meta.get("stub", []),
-            "exhaustive": bool(extra.get("exhaustive", False)),
+            "exhaustive": bool(meta.get("exhaustive_key") and extra.get(meta["exhaustive_key"][0]) == meta["exhaustive_key"][1][tier]),
             "extra": extra,
         },
         "assumptions": meta.get("assumptions", []) + [
